@@ -51,6 +51,28 @@ func BlockSeccompSyscall() error {
 	return nil
 }
 
+// DenyPrctlSyscall installs, on the calling thread only and without the library under test, a filter that answers
+// prctl(2) with ERRNO(EPERM) and allows everything else. A privileged caller installs it as it is (no_new_privs stays
+// clear); an unprivileged one has to set no_new_privs first.
+func DenyPrctlSyscall(setNNP bool) error {
+	if setNNP {
+		if _, _, e := syscall.RawSyscall6(syscall.SYS_PRCTL, 38 /* PR_SET_NO_NEW_PRIVS */, 1, 0, 0, 0, 0); e != 0 {
+			return e
+		}
+	}
+	prog := []syscall.SockFilter{
+		{Code: 0x20, K: 0},                 // ld nr
+		{Code: 0x15, Jt: 0, Jf: 1, K: 157}, // jeq __NR_prctl (x86_64)
+		{Code: 0x06, K: 0x00050000 | 1},    // ret ERRNO(EPERM)
+		{Code: 0x06, K: 0x7fff0000},        // ret ALLOW
+	}
+	fprog := syscall.SockFprog{Len: uint16(len(prog)), Filter: &prog[0]}
+	if _, _, e := syscall.RawSyscall6(syscall.SYS_PRCTL, 22 /* PR_SET_SECCOMP */, 2 /* SECCOMP_MODE_FILTER */, uintptr(unsafe.Pointer(&fprog)), 0, 0, 0); e != 0 {
+		return e
+	}
+	return nil
+}
+
 func Gettid() int {
 	r, _, _ := syscall.RawSyscall(syscall.SYS_GETTID, 0, 0, 0)
 	return int(r)
